@@ -66,7 +66,7 @@ def main(seed, ncases, driver, out):
             outs, _ = series_computation({"H": H}, algorithm=fn, scope=scope)
         except Exception as e:
             failures.append(dict(desc, kind="compiler-raises", error=type(e).__name__ + ": " + str(e)[:120])); continue
-        reqs = [(nm, i, j, n) for nm in prog.outputs for i in range(N) for j in range(N) for n in range(0, 3)]
+        reqs = [(nm, i, j, n) for nm in prog.outputs for i in range(N) for j in range(N) for n in range(0, 4)]
         rnd.shuffle(reqs); bad = None
         for (nm, i, j, n) in reqs:
             evals += 1
